@@ -5,6 +5,7 @@ package main
 import (
 	"fmt"
 	"go/types"
+	"regexp"
 	"strings"
 
 	"golang.org/x/tools/go/ssa"
@@ -23,10 +24,14 @@ type Env struct {
 	curVer map[string]int              // nil: live e.cur
 	oldVer map[string]int              // versions for old(); missing = 0
 	visited func(k string) (string, error)
+	preVer  map[string]int // heap versions at entry to the loop whose invariant is being elaborated
+	qdepth  int            // quantifier nesting depth
+	qvars   []string       // bound variable terms of the innermost quantifier
+	trig    *[]string      // trigger candidates for the innermost quantifier
 }
 
 func (env *Env) child() *Env {
-	return &Env{e: env.e, vars: map[string]EV{}, parent: env, lookup: env.lookup, curVer: env.curVer, oldVer: env.oldVer, visited: env.visited}
+	return &Env{e: env.e, vars: map[string]EV{}, parent: env, lookup: env.lookup, curVer: env.curVer, oldVer: env.oldVer, visited: env.visited, preVer: env.preVer, qdepth: env.qdepth, qvars: env.qvars, trig: env.trig}
 }
 
 func (env *Env) get(name string) (EV, bool) {
@@ -41,11 +46,36 @@ func (env *Env) get(name string) (EV, bool) {
 	return EV{}, false
 }
 
-func (env *Env) heap(h string) string {
-	if env.curVer != nil {
-		return env.e.heapAt(h, env.curVer[h])
+var (
+	letNameRe = regexp.MustCompile(`\|m\.[^|]*![0-9]+\|`)
+	qNameRe   = regexp.MustCompile(`\|q\.[^|]*![0-9]+\|`)
+)
+
+// trigger records r as a trigger candidate of the innermost quantifier if its
+// index term is one of that quantifier's bound variables.
+func (env *Env) trigger(r, idx string) {
+	if env.trig == nil {
+		return
 	}
-	return env.e.H(h)
+	for _, qv := range env.qvars {
+		if idx == qv {
+			*env.trig = append(*env.trig, r)
+			return
+		}
+	}
+}
+
+func (env *Env) heap(h string) string {
+	var t string
+	if env.curVer != nil {
+		t = env.e.heapAt(h, env.curVer[h])
+	} else {
+		t = env.e.H(h)
+	}
+	if env.e.heapLog != nil {
+		env.e.heapLog[t] = true
+	}
+	return t
 }
 
 var (
@@ -159,28 +189,75 @@ func (env *Env) elab(x Expr) (string, SType, error) {
 		}
 		switch u := st.T.Underlying().(type) {
 		case *types.Map:
-			return fmt.Sprintf("(select (select %s %s) %s)", env.heap(w.heapMapVal(u)), t, it), SType{T: u.Elem()}, nil
+			r := fmt.Sprintf("(select (select %s %s) %s)", env.heap(w.heapMapVal(u)), t, it)
+			env.trigger(r, it)
+			return r, SType{T: u.Elem()}, nil
 		case *types.Slice:
-			return fmt.Sprintf("(select (select %s (s_arr %s)) (+ (s_off %s) %s))", env.heap(w.heapArr(u.Elem())), t, t, it), SType{T: u.Elem()}, nil
+			r := fmt.Sprintf("(select (select %s (s_arr %s)) (idx %s %s))", env.heap(w.heapArr(u.Elem())), t, t, it)
+			env.trigger(r, it)
+			return r, SType{T: u.Elem()}, nil
 		case *types.Basic:
 			return fmt.Sprintf("(sbyte %s %s)", t, it), tInt, nil
 		}
 		return "", st, fmt.Errorf("cannot index %s", st)
 	case EQuant:
 		c := env.child()
+		c.qdepth = env.qdepth + 1
+		var cands []string
+		c.trig = &cands
+		c.qvars = nil
 		var bs []string
 		for _, v := range n.Vars {
 			st, err := w.parseSType(v.Type)
 			if err != nil {
 				return "", st, err
 			}
-			name := q("q." + v.Name)
+			name := q(e.freshName("q." + v.Name))
 			c.vars[v.Name] = EV{name, st}
+			c.qvars = append(c.qvars, name)
 			bs = append(bs, fmt.Sprintf("(%s %s)", name, w.stypeSort(st)))
 		}
 		b, _, err := c.elab(n.Body)
 		if err != nil {
 			return "", tBool, err
+		}
+		// explicit triggers: index terms s[i] / m[k] / k in m whose index is a bound
+		// variable, that mention every bound variable and only outer let-names
+		var pats []string
+		seen := map[string]bool{}
+		for _, cand := range cands {
+			ok := true
+			for _, qv := range c.qvars {
+				if !strings.Contains(cand, qv) {
+					ok = false
+				}
+			}
+			for _, ln := range letNameRe.FindAllString(cand, -1) {
+				if lvl, isLet := e.letLevel[ln]; isLet && lvl >= c.qdepth {
+					ok = false
+				}
+			}
+			for _, qn := range qNameRe.FindAllString(cand, -1) {
+				// variables of inner quantifiers must not occur
+				inScope := false
+				for x := c; x != nil; x = x.parent {
+					for _, v := range x.vars {
+						if v.term == qn {
+							inScope = true
+						}
+					}
+				}
+				if !inScope {
+					ok = false
+				}
+			}
+			if ok && !seen[cand] && len(pats) < 3 {
+				seen[cand] = true
+				pats = append(pats, ":pattern ("+cand+")")
+			}
+		}
+		if len(pats) > 0 {
+			b = fmt.Sprintf("(! %s %s)", b, strings.Join(pats, " "))
 		}
 		kw := "exists"
 		if n.Forall {
@@ -208,6 +285,7 @@ func (env *Env) elabBin(n EBin) (string, SType, error) {
 		if st.T == nil || !ok {
 			return "", tBool, fmt.Errorf("'in' needs a map, got %s", st)
 		}
+		env.trigger(fmt.Sprintf("(select (select %s %s) %s)", env.heap(w.heapMapDom(mt)), m, k), k)
 		return fmt.Sprintf("(and (not (= %s nil)) (select (select %s %s) %s))", m, env.heap(w.heapMapDom(mt)), m, k), tBool, nil
 	}
 	l, lt, err := env.elab(n.L)
@@ -271,6 +349,13 @@ func (env *Env) elabCall(n ECall) (string, SType, error) {
 			c.curVer = map[string]int{}
 		}
 		return c.elab(n.Args[0])
+	case "pre":
+		if env.preVer == nil {
+			return "", tBool, fmt.Errorf("pre(e) is only meaningful in a loop invariant")
+		}
+		c := env.child()
+		c.curVer = env.preVer
+		return c.elab(n.Args[0])
 	case "len":
 		t, st, err := env.elab(n.Args[0])
 		if err != nil {
@@ -307,7 +392,7 @@ func (env *Env) elabCall(n ECall) (string, SType, error) {
 		if err != nil {
 			return "", tBool, err
 		}
-		return fmt.Sprintf("(select %s %s)", env.heap(heapAlloc), t), tBool, nil
+		return fmt.Sprintf("(isalloc %s %s)", env.heap(heapAlloc), t), tBool, nil
 	case "fresh": // allocated now, not allocated in the old state
 		t, st, err := env.elab(n.Args[0])
 		if err != nil {
@@ -320,7 +405,7 @@ func (env *Env) elabCall(n ECall) (string, SType, error) {
 		if env.oldVer != nil {
 			ov = env.oldVer[heapAlloc]
 		}
-		return fmt.Sprintf("(and (not (= %s nil)) (not (select %s %s)) (select %s %s))", t, e.heapAt(heapAlloc, ov), t, env.heap(heapAlloc), t), tBool, nil
+		return fmt.Sprintf("(and (not (= %s nil)) (not (isalloc %s %s)) (isalloc %s %s))", t, e.heapAt(heapAlloc, ov), t, env.heap(heapAlloc), t), tBool, nil
 	case "arr": // backing array reference of a slice
 		t, _, err := env.elab(n.Args[0])
 		if err != nil {
@@ -368,13 +453,16 @@ func (env *Env) elabCall(n ECall) (string, SType, error) {
 		t, err := env.visited(k)
 		return t, tBool, err
 	}
+	if d, ok := w.specs.Defines[n.Fn]; ok && d.Opaque {
+		return env.elabOpaque(d, n)
+	}
 	if d, ok := w.specs.Defines[n.Fn]; ok {
 		if len(d.Params) != len(n.Args) {
 			return "", tBool, fmt.Errorf("%s: want %d args, got %d", n.Fn, len(d.Params), len(n.Args))
 		}
 		// macro: evaluate the body in an environment binding parameters to
 		// argument terms; heap reads happen in the caller's heap state.
-		c := &Env{e: e, vars: map[string]EV{}, curVer: env.curVer, oldVer: env.oldVer, visited: env.visited}
+		c := &Env{e: e, vars: map[string]EV{}, curVer: env.curVer, oldVer: env.oldVer, visited: env.visited, preVer: env.preVer, qdepth: env.qdepth, qvars: env.qvars, trig: env.trig}
 		var lets []string
 		for i, p := range d.Params {
 			at, ast, err := env.elab(n.Args[i])
@@ -389,6 +477,7 @@ func (env *Env) elabCall(n ECall) (string, SType, error) {
 				return "", tBool, fmt.Errorf("%s: argument %d has sort %s, want %s", n.Fn, i, w.stypeSort(ast), w.stypeSort(pst))
 			}
 			nm := q(e.freshName("m." + p.Name))
+			e.letLevel[nm] = env.qdepth
 			lets = append(lets, fmt.Sprintf("(%s %s)", nm, at))
 			c.vars[p.Name] = EV{nm, pst}
 		}
@@ -484,4 +573,83 @@ func (e *Enc) mapLen(mt *types.Map, m, domHeap string) string {
 		e.assume(fmt.Sprintf("(forall ((d (Array %s Bool))) (! (and (>= (%s d) 0) (= (= (%s d) 0) (= d ((as const (Array %s Bool)) false)))) :pattern ((%s d))))", ks, f, f, ks, f))
 	}
 	return fmt.Sprintf("(ite (= %s nil) 0 (%s (select %s %s)))", m, f, domHeap, m)
+}
+
+// elabOpaque: the define is an uninterpreted function symbol, one per heap
+// state it is evaluated in, with a definitional axiom  f(x) = body(x)
+// triggered on f(x). Quantified contracts then mention only f, and the body is
+// unfolded only for the terms that need it.
+func (env *Env) elabOpaque(d *Define, n ECall) (string, SType, error) {
+	e := env.e
+	w := e.w
+	if len(d.Params) != len(n.Args) {
+		return "", tBool, fmt.Errorf("%s: want %d args, got %d", d.Name, len(d.Params), len(n.Args))
+	}
+	rst, err := w.parseSType(d.Ret)
+	if err != nil {
+		return "", tBool, err
+	}
+	var as, sorts, binders, pnames []string
+	c := &Env{e: e, vars: map[string]EV{}, curVer: env.curVer, oldVer: env.oldVer, visited: env.visited, preVer: env.preVer}
+	for i, p := range d.Params {
+		at, ast, err := env.elab(n.Args[i])
+		if err != nil {
+			return "", tBool, err
+		}
+		pst, err := w.parseSType(p.Type)
+		if err != nil {
+			return "", tBool, err
+		}
+		if w.stypeSort(pst) != w.stypeSort(ast) && at != "nil" {
+			return "", tBool, fmt.Errorf("%s: argument %d has sort %s, want %s", d.Name, i, w.stypeSort(ast), w.stypeSort(pst))
+		}
+		as = append(as, at)
+		sorts = append(sorts, w.stypeSort(pst))
+		pn := q("op." + d.Name + "." + p.Name)
+		pnames = append(pnames, pn)
+		binders = append(binders, fmt.Sprintf("(%s %s)", pn, w.stypeSort(pst)))
+		c.vars[p.Name] = EV{pn, pst}
+	}
+	// elaborate the body once to learn which heap versions it reads
+	saveLog := e.heapLog
+	e.heapLog = map[string]bool{}
+	saveFresh := e.fresh
+	body, _, err := c.elab(d.Body)
+	log := e.heapLog
+	e.heapLog = saveLog
+	if saveLog != nil {
+		for k := range log {
+			saveLog[k] = true
+		}
+	}
+	if err != nil {
+		return "", tBool, fmt.Errorf("in opaque %s: %v", d.Name, err)
+	}
+	sig := strings.Join(sortedHeapNames(log), ",")
+	key := d.Name + "@" + sig
+	name, ok := e.opaque[key]
+	if !ok {
+		name = q(fmt.Sprintf("op.%s@%d", d.Name, len(e.opaque)))
+		e.opaque[key] = name
+		e.declareFun(name, sorts, w.stypeSort(rst))
+		app := "(" + name + " " + strings.Join(pnames, " ") + ")"
+		if len(pnames) == 0 {
+			app = name
+		}
+		ax := fmt.Sprintf("(forall (%s) (! (= %s %s) :pattern (%s)))", strings.Join(binders, " "), app, body, app)
+		if len(pnames) == 0 {
+			ax = fmt.Sprintf("(= %s %s)", app, body)
+		}
+		// global: belongs to no block (it must survive ancestor pruning)
+		sb := e.curBlock
+		e.curBlock = nil
+		e.assume(ax)
+		e.curBlock = sb
+	} else {
+		e.fresh = saveFresh
+	}
+	if len(as) == 0 {
+		return name, rst, nil
+	}
+	return "(" + name + " " + strings.Join(as, " ") + ")", rst, nil
 }
